@@ -25,6 +25,8 @@ pub struct MCfg {
     pub fastload: bool,
     pub rom: bool,
     pub autoload: bool,
+    /// attach the (idle) debug interface of the harness; a host without any debugger leaves it off
+    pub debug: bool,
 }
 
 impl Default for MCfg {
@@ -42,6 +44,7 @@ impl Default for MCfg {
             fastload: false,
             rom: true,
             autoload: false,
+            debug: true,
         }
     }
 }
@@ -95,7 +98,9 @@ pub fn new_emu(c: &MCfg) -> Emu {
         Ok(e) => e,
         Err(_) => panic!("Emulator::new failed"),
     };
-    e.set_debug_interface(SimDebug::new(BreakMode::Never));
+    if c.debug {
+        e.set_debug_interface(SimDebug::new(BreakMode::Never));
+    }
     e
 }
 
